@@ -96,6 +96,10 @@ pub fn run(ctx: &Ctx, rep: &mut Report) {
                     rep.count("advance-ledger");
                 }
             }
+            if rng.chance(1, 25) && u.upgrade_and_migrate(&gs).is_ok() {
+                rep.step("the gas service is upgraded to the same code and migrated".into());
+                rep.count("upgrade-and-migrate");
+            }
             let op = *rng.pick(&OPS);
             let ti = rng.usize(3);
             let t = toks[ti].clone();
